@@ -351,7 +351,7 @@ def leaveCluster : M Unit := do
 def addBroadcast (data : Bytes) : M Bool := do
   let s ← getS
   if data.isEmpty then throwE .malformed
-  else if data.length > s.cfg.mps then throwE .dataTooBig
+  else if data.length > s.cfg.mps || data.length > 65535 then throwE .dataTooBig
   else
     match E.handler.receive s.hst data none with
     | none => throwE .custom
